@@ -32,6 +32,33 @@ VEC = ["vshr", "vshl", "vror", "vrol"]
 
 
 # --------------------------------------------------------------------------- implementation side
+_shape_cache: dict = {}
+
+
+def _shape_class(style: str, ew: int):
+    """entry shapes whose DEFAULT constant is not all-zero: a data.Struct subclass with non-zero field defaults
+    (ew >= 2), an Enum whose first member is non-zero (0 is a later member).  The documented default placeholder
+    of shift_vec_* is still the all-zero entry."""
+    import types
+    from amaranth import unsigned, signed
+    from amaranth.lib import data, enum
+
+    if (style, ew) not in _shape_cache:
+        if style == "struct":
+            a, b = ew // 2, ew - ew // 2
+            cls = type("Entry", (data.Struct,), {"__annotations__": {"p": unsigned(a), "q": signed(b)}, "p": (1 << a) - 1, "q": -1 if b > 1 else -1})
+        else:
+            def body(ns):
+                ns["A"] = (1 << ew) - 1
+                ns["B"] = 0
+                if ew > 1:
+                    ns["C"] = 1
+
+            cls = types.new_class("E", (enum.Enum,), {"shape": unsigned(ew)}, body)
+        _shape_cache[(style, ew)] = cls
+    return _shape_cache[(style, ew)]
+
+
 def _entries(n: int, ew: int, style: str, prefix: str):
     """n entries of width ew: plain signals or views of a two-field struct; returns (objects, input signals)"""
     from amaranth import Signal, signed
@@ -39,7 +66,11 @@ def _entries(n: int, ew: int, style: str, prefix: str):
 
     objs, sigs = [], []
     for j in range(n):
-        if style in ("view", "sview") and ew >= 2:
+        if style in ("struct", "enum"):
+            v = Signal(_shape_class(style, ew), name=f"{prefix}{j}")
+            objs.append(v)
+            sigs.append(v.as_value())
+        elif style in ("view", "sview") and ew >= 2:
             # "sview": both fields of the struct are signed
             lo, hi = (signed(ew // 2), signed(ew - ew // 2)) if style == "sview" else (ew // 2, ew - ew // 2)
             v = Signal(data.StructLayout({"p": lo, "q": hi}), name=f"{prefix}{j}")
@@ -377,9 +408,9 @@ def gen_cases(ctx: Check) -> list[Case]:
     j = 0
     for ew in range(1, lim + 1):
         for n in range(1, lim // ew + 1):
-            style = ["flat", "view", "signed", "sview"][j % 4]
-            if ew < 2 and style in ("view", "sview"):
-                style = "signed"
+            style = ["flat", "view", "signed", "sview", "struct", "enum"][j % 6]
+            if ew < 2 and style in ("view", "sview", "struct"):
+                style = "enum" if style == "struct" else "signed"
             j += 1
             d = vec_desc(n, ew, style)
             datas = [list(v) for v in itertools.product(range(1 << ew), repeat=n)]
@@ -391,8 +422,8 @@ def gen_cases(ctx: Check) -> list[Case]:
                 triples = [(list(a), list(b), off) for a in itertools.product(range(1 << ew), repeat=n) for b in itertools.product(range(1 << ew), repeat=n) for off in range(1 << g["ow"])]
                 cases += _cases(g, gvec_ops(ew, triples), "exhaustive")
     for n, ew, style in ctx.pick(
-        [(4, 3, "view"), (5, 8, "signed"), (7, 5, "sview"), (8, 8, "flat"), (9, 8, "view"), (3, 33, "signed"), (2, 64, "sview"), (16, 2, "flat")],
-        [(n, ew, s) for n in (2, 3, 4, 5, 7, 8, 9, 16) for ew, s in ((2, "signed"), (3, "view"), (8, "flat"), (16, "sview"), (33, "signed"), (64, "view"))],
+        [(4, 3, "view"), (5, 8, "signed"), (7, 5, "sview"), (8, 8, "struct"), (9, 8, "view"), (3, 33, "signed"), (2, 64, "sview"), (16, 2, "flat"), (5, 8, "struct"), (3, 2, "struct"), (4, 4, "enum"), (2, 3, "struct")],
+        [(n, ew, s) for n in (2, 3, 4, 5, 7, 8, 9, 16) for ew, s in ((2, "signed"), (3, "view"), (8, "flat"), (16, "sview"), (33, "signed"), (64, "view"), (4, "struct"), (9, "struct"), (3, "enum"))],
     ):
         d = vec_desc(n, ew, style)
         ops = []
